@@ -110,7 +110,7 @@ MANIFEST_TEXT = {
     "C19": {
         "level": "Seeded exploration: at every main-loop step of thousands of simulated protocol interactions (generated protocol grammars, scripted peers, faults, several interactions per session) the forecast (next (sender, recipient, type) options and the completeness flag) is compared with an independent message-level automaton derived from the harness's own AST. Exploration is the right level: the quantifier ranges over all protocol grammars and all reachable histories.",
         "design_ref": "DESIGN.md §6.7",
-        "note": _NOTE + " Histories are those the simulated interactions reach (<= 14 messages); open-ended repetitions are treated as unbounded by the reference, Fandango caps them at 20, so interactions are cut before that.",
+        "note": _NOTE + " Histories are those the simulated interactions reach (<= 14 messages); open-ended repetitions are treated as unbounded by the reference, Fandango caps them at 20, so interactions are cut before that. A discrepancy counts as a violation on *plain* protocol grammars (no message-level ambiguity: no alternatives/repetitions/nullable items competing for the same first message, no type sent by one party to two recipients); on the other ~25 % of the generated grammars the unchanged forecaster deviates occasionally (listed findings per structural feature), and a regression that shows only there is not detected (DESIGN.md 11.4, seed C19-4).",
         "technique": "deterministic simulation of protocol mode (virtual clock, scripted faulty peers, seeded fragmentation/delivery schedule) with a per-step invariant against a reference automaton",
     },
     "C20": {
